@@ -18,7 +18,9 @@ Record obs := { o_rets : list (N * N);                 (* handler, return code *
                 o_pending : N }.                       (* entries left in bidsInProcess *)
 (* timed cases (outer context without deadline): evs_after was issued timed_at ms after the handler
    started; the model orders it against the handler's own deadline, the literal of handleBid *)
-Record case := { id : N; contract : bytes; evs : list event; timed_at : option N; evs_after : list event; ob : obs }.
+(* mode 0: everything observed; 1: end-to-end run of a real node (only the transactions that reached the
+   chain endpoint and the frame returned to the bidder are observable); 2: the harness failed to start *)
+Record case := { id : N; mode : N; contract : bytes; evs : list event; timed_at : option N; evs_after : list event; ob : obs }.
 
 Definition deadline_ms : N :=
   match c01_deadline_ns with [ns] => Z.to_N (ns / 1000000) | _ => 0 end.
@@ -87,8 +89,16 @@ Definition obs_eqb (a b : obs) : bool :=
                        (wo_sends_ok_before x =? wo_sends_ok_before y)) (o_writes a) (o_writes b).
 (* o_pending is not observable from outside the providerapi package: compared by C12's driver *)
 
+Definition obs_eqb_e2e (a b : obs) : bool :=
+  list_eqb (fun x y => bytes_eqb (fst (fst x)) (fst (fst y)) && bytes_eqb (snd (fst x)) (snd (fst y)) &&
+                       Bool.eqb (snd x) (snd y)) (o_sends a) (o_sends b) &&
+  list_eqb (fun x y => (wo_h x =? wo_h y) && preconf_eqb (wo_c x) (wo_c y) &&
+                       (wo_sends_ok_before x =? wo_sends_ok_before y)) (o_writes a) (o_writes b).
+
 Definition mismatches (cs : list case) : list N :=
-  map id (filter (fun c => negb (obs_eqb (predict c) (ob c))) cs).
+  map id (filter (fun c => negb (if mode c =? 0 then obs_eqb (predict c) (ob c)
+                                 else if mode c =? 1 then obs_eqb_e2e (predict c) (ob c)
+                                 else false)) cs).
 
 (* --- the property on the implementation's observation -------------------------------------------- *)
 (* the history up to (excluding) the first DeadlineFire / Abandon of handler h *)
@@ -136,8 +146,9 @@ Definition first_failure (c : case) : string :=
 
 Definition violation (c : case) : option string :=
   let o := ob c in
-  (* return code 97: the handler was still running 2.5 s after its own deadline *)
-  if existsb (fun r => snd r =? 97) (o_rets o) then Some "effect-without-gate:deadline-hang"%string else
+  (* return codes 97 / 98: the handler was still running 2.5 s after its own deadline / did not return
+     within the driver's wall-clock limit (longer than that deadline) *)
+  if existsb (fun r => (snd r =? 97) || (snd r =? 98)) (o_rets o) then Some "effect-without-gate:deadline-hang"%string else
   (* a commitment written on a stream whose handler fails a gate, or embedding another bid *)
   match flat_map (fun w => match nget (wo_h w) (arrivals (all_evs c)) with
                            | Some (role, ao) =>
